@@ -243,12 +243,14 @@ def run_kani(job, scratch):
         return r, out
     failed = [f for f in p["failed"] if not any(re.search(a, f["desc"] + " @ " + f["loc"]) for a in job.allow)]
     r["allowed_panics"] = len(p["failed"]) - len(failed)
-    if p["covers_unsat"]:
+    if p["mustnot_sat"]:
+        failed += [{"desc": d, "loc": "cover", "name": "cover"} for d in p["mustnot_sat"]]
+    # a failing assertion ends its paths, so covers behind it may become unsatisfiable: counterexamples
+    # take precedence, an unsatisfiable cover alone means a vacuous harness
+    if p["covers_unsat"] and not failed:
         r["status"] = "error"
         r["detail"] = "vacuity: cover witness(es) not satisfiable: %s" % p["covers_unsat"]
         return r, out
-    if p["mustnot_sat"]:
-        failed += [{"desc": d, "loc": "cover", "name": "cover"} for d in p["mustnot_sat"]]
     if failed:
         r["status"] = "cex"
         r["failed_checks"] = failed
